@@ -183,7 +183,7 @@ func (f *Frame) recordDebugRef(cur *blockCur, x *ssa.DebugRef) {
 	name := obj.Name()
 	idx := len(f.locals[name])
 	_ = idx
-	f.locals[name] = append(f.locals[name], localDef{block: cur.b, val: x.X, addr: x.IsAddr})
+	f.locals[name] = append(f.locals[name], localDef{block: cur.b, val: x.X, addr: x.IsAddr, obj: obj})
 }
 
 func (f *Frame) nilCheck(cur *blockCur, v Val, in ssa.Instruction) {
